@@ -24,6 +24,7 @@ Definition dec_ev (v : tval) : ev :=
   | 16 => EBlackC (a 1%nat) | 17 => EUnblackC (a 1%nat)
   | 18 => EBanLapse (a 1%nat) | 19 => EUnbanLands (a 1%nat)
   | 20 => ESetRecord (a 1%nat) (vbool (vnth 2 v)) (a 3%nat)
+  | 21 => EWhite (a 1%nat) (vbool (vnth 2 v)) | 22 => EUnwhite (a 1%nat) (vbool (vnth 2 v))
   | 14 => ECorrupt (a 1%nat) (vbool (vnth 2 v))
   | _ => EDelAnon (a 1%nat)
   end.
